@@ -785,7 +785,12 @@ func c16BigMessage(c *core.Case, w *svcWorld) *core.Result {
 			if ex.Out.Hang {
 				return c.Violation("no-answer:big-message", "a valid message with %d packs is never answered\n%s", n, clipDump(ex.Out.Dump))
 			}
-			return c.Violation("no-answer:big-message", "a valid message with %d packs was not answered within the request watchdog while the server side is not idle either", n)
+			if w.b.Idle(3 * time.Second) {
+				// nothing runs for it any more - no database command open, no announced background
+				// work - and the call has still not returned
+				return c.Violation("no-answer:big-message", "a valid message with %d packs was not answered within the request watchdog and the server side does nothing any more", n)
+			}
+			return c.Inconclusive("a message with %d packs was not answered within the request watchdog; the server side is still busy", n)
 		}
 		if ex.Out.Err != nil {
 			return c.Violation("refused:big-message", "a valid message with %d packs was refused: %v", n, ex.Out.Err)
@@ -819,7 +824,10 @@ func c16BigMessage(c *core.Case, w *svcWorld) *core.Result {
 			_, err := w.b.Svc.CreateCollection(ctx, &model.CollectionMessage{Collection: "colA"})
 			return err
 		})
-		if out.Panic != "" || out.TimedOut || out.Err != nil {
+		if out.TimedOut && out.Panic == "" {
+			return c.Inconclusive("CreateCollection watchdog")
+		}
+		if out.Panic != "" || out.Err != nil {
 			return c.Violation("refused:repeated-create-collection", "creating a collection that exists, call %d: panic %q, timed out %v, error %v", i+1, out.Panic, out.TimedOut, out.Err)
 		}
 	}
